@@ -15,7 +15,7 @@ PROPERTY = 'C11'
 LEVEL = 'model_checking'
 CHUNK = {'quick': 60, 'thorough': 150}
 RULE = ('events: cd {new sub-directory, .., -rel-tmp, -rel-act}; env X = v | "${X}b" | "${Y}" | "${nope}c", env unset X | Y, each with no phase spec, -of act, '
-        '-of !act; timeout = 3 | 0 (the smallest legal value: it is a limit, not the absence of one) | none; env Y = -stdout-from PROGRAM with each phase spec (the program must run once per changed set, in the environment of that set); advance to the next phase (setup -> [act] -> before-assert -> assert -> cleanup). BFS over histories to depth 4 '
+        '-of !act; timeout = 3 | 0 (the smallest legal value: it is a limit, not the absence of one) | none; env Y = -stdout-from PROGRAM with each phase spec (the program must run once per changed set, in the environment of that set); advance to the next phase (setup -> [act] -> before-assert -> assert -> cleanup). BFS over histories to depth 4 (and to depth 3 - thorough 4 - once more with exactly constructed with an explicit starting environment) '
         '(thorough 6) with deduplication on the reference state; every transition = one real execution with a probe after every event; non-trivial = the '
         'reference state after the history differs from the initial one')
 ASSUMPTIONS = [
@@ -157,6 +157,10 @@ def cases(tier):
                 yield ('real-chdir', phase, target)
     for h in bfs(4 if tier == 'quick' else 6):
         yield h
+    # the same histories with exactly constructed with an EXPLICIT starting environment (a dict of the embedder instead of "read os.environ"):
+    # the act set and the non-act set are still two sets, and the embedder's dict is not changed
+    for h in bfs(3 if tier == 'quick' else 4):
+        yield ('explicit',) + h
 
 
 def build(hist):
@@ -251,10 +255,29 @@ def run_real_chdir(case) -> Result:
     return res
 
 
+_EXPL = {}
+
+
+def explicit_main_program():
+    if 'mp' not in _EXPL:
+        from exactly_lib.definitions import os_proc_env
+        from exactly_lib.cli_default.default_main_program_setup import default_main_program
+        old = os_proc_env.ENV_VARS__DEFAULT
+        _EXPL['environ'] = dict(os.environ)
+        os_proc_env.ENV_VARS__DEFAULT = _EXPL['environ']
+        try:
+            _EXPL['mp'] = default_main_program()
+        finally:
+            os_proc_env.ENV_VARS__DEFAULT = old
+        _EXPL['before'] = dict(_EXPL['environ'])
+    return _EXPL['mp']
+
+
 def run(case) -> Result:
     if case and case[0] == 'real-chdir':
         return run_real_chdir(case)
-    hist = tuple(case)
+    explicit = bool(case) and case[0] == 'explicit'
+    hist = tuple(case[1:]) if explicit else tuple(case)
     res = Result()
     res.n = 1
     w = world.get()
@@ -268,8 +291,13 @@ def run(case) -> Result:
     seam.env_keys = ('X', 'Y')
     seam.script['valprobe'] = {'out': 'val'}
     text, exp, graph, final = build(hist)
-    o = cli.run_case(text)
+    o = cli.run_case(text, mp=explicit_main_program()) if explicit else cli.run_case(text)
     errs = []
+    if explicit and _EXPL['environ'] != _EXPL['before']:
+        errs.append('the starting environment supplied to exactly (a dict of the embedder) was changed by the test case: %s' % sorted(
+            set(_EXPL['environ'].items()) ^ set(_EXPL['before'].items()))[:4])
+        _EXPL['environ'].clear()
+        _EXPL['environ'].update(_EXPL['before'])
     if o.exc:
         errs.append('exception / hang: %s' % o.exc)
     if o.rc != 0 or o.out != 'PASS\n':
@@ -310,7 +338,7 @@ def run(case) -> Result:
     for a, b, ei in zip(graph, graph[1:], hist):
         res.states.add(a)
         res.states.add(b)
-        res.trans.add((a, ei, b))
+        res.trans.add((a, ei, b) if not explicit else ('explicit', a, ei, b))
     res.states.add(graph[0])
     if not errs:
         res.validated += 1
